@@ -955,6 +955,7 @@ def make_shims(world):
         "dataclasses": NS("dataclasses", dataclass=_dataclass, field=lambda **kw: _Field(kw)),
         "itertools": itertools,
         "math": math,
+        "operator": _operator_ns(W),
         "numbers": NS("numbers", Real=DType("Real", ("float32", "float64", "pyfloat")), Number=DType("Number", ("float32", "float64", "pyfloat"))),
         "typing": typing_ns,
         "typing_extensions": typing_ns,
@@ -969,6 +970,29 @@ def make_shims(world):
         "argparse": Opaque("argparse"),
     }
     return shims
+
+
+def _operator_ns(W):
+    """The stdlib operator module, routed through the interpreter's own operator semantics (exact division,
+    dunder dispatch on interpreted objects)."""
+    import ast as _ast
+    import operator as _op
+
+    def b(node_cls):
+        return lambda x, y: W.interp.binop(node_cls(), x, y)
+
+    def c(node_cls):
+        return lambda x, y: W.interp.compare(node_cls(), x, y)
+
+    return NS(
+        "operator",
+        add=b(_ast.Add), sub=b(_ast.Sub), mul=b(_ast.Mult), truediv=b(_ast.Div), floordiv=b(_ast.FloorDiv), mod=b(_ast.Mod), pow=b(_ast.Pow), matmul=b(_ast.MatMult),
+        and_=b(_ast.BitAnd), or_=b(_ast.BitOr), xor=b(_ast.BitXor),
+        eq=c(_ast.Eq), ne=c(_ast.NotEq), lt=c(_ast.Lt), le=c(_ast.LtE), gt=c(_ast.Gt), ge=c(_ast.GtE), is_=c(_ast.Is), is_not=c(_ast.IsNot), contains=lambda x, y: W.interp.compare(_ast.In(), y, x),
+        neg=lambda x: W.interp.binop(_ast.Sub(), 0, x), pos=lambda x: x, not_=lambda x: not W.interp.truth(x), truth=lambda x: W.interp.truth(x), index=_op.index,
+        itemgetter=_op.itemgetter, getitem=lambda x, i: x[i],
+        attrgetter=lambda *names: (lambda o: W.interp.getattr(o, names[0]) if len(names) == 1 else tuple(W.interp.getattr(o, n) for n in names)),
+    )
 
 
 class DType(str):
